@@ -17,6 +17,8 @@
 #define VERIF_C24_COMMON_HXX
 
 #include <cmath>
+#include <utility>
+#include <vector>
 #include "sym.hxx"
 
 namespace verif {
@@ -38,7 +40,17 @@ namespace c24 {
   struct Oracle {
     tfel::math::tvector<3u, verif::Sym> vp;
     tfel::math::tmatrix<3u, 3u, verif::Sym> m;
+    //! answers for successive calls (C55: one decomposition per handler); when empty, (vp, m) is answered
+    std::vector<std::pair<tfel::math::tvector<3u, verif::Sym>, tfel::math::tmatrix<3u, 3u, verif::Sym>>> queue;
     int calls = 0;
+    void next() {
+      if (!queue.empty()) {
+        vp = queue.front().first;
+        m = queue.front().second;
+        queue.erase(queue.begin());
+      }
+      ++calls;
+    }
   };
   inline Oracle& oracle() {
     static Oracle o;
@@ -55,7 +67,7 @@ inline int fses::syevj3<tfel::math::tmatrix<3u, 3u, verif::Sym>,
     tfel::math::tvector<3u, verif::Sym>& w,
     tfel::math::tmatrix<3u, 3u, verif::Sym>&) {
   auto& o = c24::oracle();
-  ++o.calls;
+  o.next();
   Q = o.m;
   w = o.vp;
   return 0;
@@ -73,7 +85,7 @@ namespace tfel::math::internals {
       const verif::Sym,
       const verif::Sym) {
     auto& o = c24::oracle();
-    ++o.calls;
+    o.next();
     m(0, 2) = m(1, 2) = m(2, 2) = m(2, 0) = m(2, 1) = verif::Sym(0);
     vp(0) = o.vp(0);
     vp(1) = o.vp(1);
